@@ -243,6 +243,13 @@ func c04JWT(r *zsim.Run) {
 	}
 }
 
+type c04Body struct{ r *bytes.Reader }
+
+func (b *c04Body) Read(p []byte) (int, error) {
+	zsim.Yield("body.read")
+	return b.r.Read(p)
+}
+
 var c04Key *rsa.PrivateKey // generated once per process (key material never enters the event log)
 
 func c04Signature(r *zsim.Run) {
@@ -272,6 +279,21 @@ func c04Signature(r *zsim.Run) {
 	}))
 	r.Logf("signature strict=%v tolerance=%v", strict, tolerance)
 	admitted, rejected := 0, 0
+	// some runs are one client session: every request carries the same encrypted secret (same key, same
+	// timestamp, the very same ciphertext) and its own signature, as a client does that negotiates once
+	session := o.Intn(3) == 0
+	sessTs := time.Now().Unix()
+	sessKey := []byte("hmac-key-of-the-session")
+	sessSecret := ""
+	if session {
+		enc, err := rsa.EncryptPKCS1v15(rand.Reader, &c04Key.PublicKey, []byte(fmt.Sprintf("key=%s; time=%d; type=0", base64.StdEncoding.EncodeToString(sessKey), sessTs)))
+		if err != nil {
+			r.Failf("harness-encrypt", "%v", err)
+			return
+		}
+		sessSecret = base64.StdEncoding.EncodeToString(enc)
+		r.Probe("one_secret_for_the_session")
+	}
 	// the one decryptor per fingerprint is shared by every request in flight
 	clients, done := 1+o.Intn(3), 0
 	for c := 0; c < clients; c++ {
@@ -293,6 +315,9 @@ func c04Signature(r *zsim.Run) {
 				off := zsim.Pick(o, int64(0), 0, -tol+2, tol-2, -tol-2, tol+2, 0, 0, 1<<55, -(1 << 55), 1<<56+3, -(1<<55)+tol/2, 1<<34)
 				ts := fmt.Sprint(now + off)
 				key := []byte(fmt.Sprintf("hmac-key-%d-%d", c, i))
+				if session {
+					off, ts, key = sessTs-now, fmt.Sprint(sessTs), sessKey
+				}
 				sum := sha256.Sum256([]byte(body))
 				content := strings.Join([]string{ts, method, path, query, fmt.Sprintf("%x", sum[:])}, "\n")
 				m := hmac.New(sha256.New, key)
@@ -306,6 +331,9 @@ func c04Signature(r *zsim.Run) {
 				}
 				fp := "fp1"
 				secret := base64.StdEncoding.EncodeToString(enc)
+				if session {
+					secret = sessSecret
+				}
 				tamper := zsim.Pick(o, "none", "none", "method", "path", "query", "body", "signature", "fingerprint", "secret", "header-missing")
 				sendMethod, sendPath, sendQuery, sendBody := method, path, query, body
 				switch tamper {
@@ -328,7 +356,9 @@ func c04Signature(r *zsim.Run) {
 				if sendQuery != "" {
 					url += "?" + sendQuery
 				}
-				req := httptest.NewRequest(sendMethod, url, bytes.NewReader([]byte(sendBody)))
+				// the body arrives from the network: reading it is a scheduling point (other requests run meanwhile)
+				req := httptest.NewRequest(sendMethod, url, &c04Body{bytes.NewReader([]byte(sendBody))})
+				req.ContentLength = int64(len(sendBody))
 				chunked := o.Intn(4) == 0
 				if chunked {
 					req.ContentLength = -1 // Transfer-Encoding: chunked: the length is unknown when the gate runs
